@@ -99,6 +99,8 @@ def plans(prop, tier):
              prof(64, nops=m, pool=160, maxlen=3, alpha=8, mode="deep", pput=65, prem=12, pget=0, pscan=0, piscan=0, pmem=23, pprobe=0, dumpevery=0),
              prof(65, nops=m, pool=120, maxlen=3, alpha=4, mode="prefix", pput=60, prem=15, pget=0, pscan=0, piscan=0, pmem=25, pprobe=0, dumpevery=0, valmix=1),
              prof(66, nops=m, pool=200, maxlen=2, alpha=8, mode="mix", pput=60, prem=15, pget=0, pscan=0, piscan=0, pmem=25, pprobe=0, dumpevery=0, valmix=1),
+             # inline values (std::uintptr_t, stored in the slot word: 0 allocated bytes) mixed with heap values of mixed sizes (seed C20d)
+             prof(68, nops=m, pool=120, maxlen=3, alpha=4, mode="prefix", pput=60, prem=15, pget=0, pscan=0, piscan=0, pmem=25, pprobe=0, dumpevery=0, valmix=1, inlpct=45),
              # ascending keys: every interior node of a level completely full (16 children) right before the root splits
              prof(67, nops=60, pool=30, maxlen=2, alpha=3, pput=40, prem=30, pget=0, pscan=0, piscan=0, pmem=30, pprobe=0, dumpevery=0, ascend=150)]
         M = ["MC_Tree_struct7.cfg"]
